@@ -144,7 +144,10 @@ def _gen_op(rng, cfg):
         return ["molctor", how, atnums, coords, _gen_rspec(rng), tab_size, rng.choice([0, 37, 5]), rng.random() < 0.5,
                 sorted(round(rng.uniform(0.2, 2.0), 2) for _ in range(2)), [rng.choice(cfg["pool"]["lebedev"]) for _ in range(3)]]
     if kind == "use":
-        return ["use", rng.randrange(1000), rng.choice(["integrate", "angint", "sph", "spline", "interp", "basis"])]
+        # 4th element: which optional arguments / which function the call gets (0 = the defaults) - the same method is
+        # called on the same object with different options in either order
+        return ["use", rng.randrange(1000), rng.choice(["integrate", "angint", "sph", "spline", "interp", "basis", "savg", "sph", "interp"]),
+                rng.choice([0, 0, rng.randrange(16)])]
     if kind == "edit":
         return ["edit", rng.randrange(1000), rng.choice(["points", "weights", "points", "weights", "indices", "degrees", "aux"]), rng.choice(EDIT_HOWS)]
     if kind == "reobserve":
@@ -781,7 +784,8 @@ def _func_on(points, center):
 
 
 def _op_use(ctx, owner, op):
-    _, h, what = op
+    _, h, what = op[:3]
+    var = op[3] if len(op) > 3 else 0
     o = ctx.pick(owner, ("atom",), h)
     if o is None or o.dirty:
         ctx.log.add(ctx.step, "use", "skip")
@@ -794,6 +798,10 @@ def _op_use(ctx, owner, op):
     else:
         pts, center, wts = m["points"], np.array(m["center"]), m["weights"]
     f = _func_on(pts, center)
+    if (var // 4) % 2:
+        f = f * (0.5 + np.cos(pts[:, 1] - 0.2)) + 0.1  # another function on the same grid
+    other = center + np.array([0.3, -0.2, 0.45])
+    probe = np.array([[0.1, 0.2, 0.3], [-0.4, 0.5, 0.2], [0.0, 0.0, 1.1], [0.9, -0.3, -0.2]]) + center
     for key in sorted(o.keys):
         _note_key(ctx, owner, key)
     had_fault = ctx.store.active()
@@ -805,11 +813,29 @@ def _op_use(ctx, owner, op):
         if what == "angint":
             return np.asarray(gg.integrate_angular_coordinates(f))
         if what == "sph":
-            return np.asarray(gg.convert_cartesian_to_spherical())
+            v = var % 4
+            if v == 0:
+                return np.asarray(gg.convert_cartesian_to_spherical())
+            if v == 1:
+                return np.asarray(gg.convert_cartesian_to_spherical(center=other))
+            if v == 2:
+                return np.asarray(gg.convert_cartesian_to_spherical(probe))
+            return np.asarray(gg.convert_cartesian_to_spherical(probe, other))
+        if what == "savg":
+            return np.asarray(gg.spherical_average(f)(np.array([0.2, 0.7, 1.3])))
         if what == "spline":
             return np.array([s(np.array([0.3, 0.9])) for s in gg.radial_component_splines(f)])
         if what == "interp":
-            return np.asarray(gg.interpolate(f)(np.asarray(pts[: min(len(pts), 40)])))
+            q = np.asarray(pts[: min(len(pts), 40)])
+            v = var % 4
+            fn = gg.interpolate(f)
+            if v == 0:
+                return np.asarray(fn(q))
+            if v == 1:
+                return np.asarray(fn(probe, deriv=1))
+            if v == 2:
+                return np.asarray(fn(probe, deriv=1, deriv_spherical=True))
+            return np.asarray(fn(probe, deriv=1, only_radial_deriv=True))
         if what == "basis":
             gg.radial_component_splines(f)
             return np.asarray(gg.basis)
@@ -841,7 +867,7 @@ def _op_use(ctx, owner, op):
     for k in o.keys:
         if k in ctx.perturbed:
             ctx.nontrivial = True
-    ctx.log.add(ctx.step, "use", what, "ok", hash_array(oc[1]))
+    ctx.log.add(ctx.step, "use", what, var, "ok", hash_array(oc[1]))
 
 
 def _apply_edit(arr, how):
@@ -1291,7 +1317,8 @@ class CacheHistoryEngine:
 
                 i0, rsq = rng.randrange(3), rng.random() < 0.5
                 what = rng.choice(["integrate", "angint", "sph", "spline", "interp"])
-                pat = [atom_op(), ["shell", -1, i0, rsq], ["use", -1, what], ["drop", -1, "atom"], atom_op(), ["shell", -1, i0, rsq], ["use", -1, what]]
+                v1, v2 = rng.choice([(0, 0), (0, 0), (rng.randrange(16), rng.randrange(16))])
+                pat = [atom_op(), ["shell", -1, i0, rsq], ["use", -1, what, v1], ["drop", -1, "atom"], atom_op(), ["shell", -1, i0, rsq], ["use", -1, what, v2]]
                 pos = rng.randint(0, len(spec["ops"]))
                 spec["ops"][pos:pos] = pat
         return spec
